@@ -723,6 +723,9 @@ func (in *Inst) scanContractMods(lp *Loop, con *Contract, c *ssa.CallCommon, cal
 	}
 	for _, mi := range con.Modifies {
 		switch mi.Kind {
+		case modMem:
+			m.mem = true
+			*unknownMem = true
 		case modGhost:
 			m.comps["g:"+mi.Name] = true
 		case modBytes:
@@ -808,7 +811,6 @@ func (in *Inst) inferAuto(lp *Loop, phis []*ssa.Phi) {
 				}
 			}
 		}
-		_ = plus
 		lp.autoInvs = append(lp.autoInvs, autoInv{key: "lo:" + phi.Comment, eval: func(pv func(*ssa.Phi) Val, st *State) string {
 			return sApp("<=", entry.T, pv(phi).T)
 		}})
@@ -821,7 +823,11 @@ func (in *Inst) inferAuto(lp *Loop, phis []*ssa.Phi) {
 				}
 			}
 			if have {
+				strict := plus == step // the guard tests the incremented value (range loops)
 				lp.autoInvs = append(lp.autoInvs, autoInv{key: "hi:" + phi.Comment, eval: func(pv func(*ssa.Phi) Val, st *State) string {
+					if strict {
+						return sOr(sApp("<", pv(phi).T, bv.T), sApp("<=", pv(phi).T, entry.T))
+					}
 					return sOr(sApp("<=", pv(phi).T, bv.T), sApp("<=", pv(phi).T, entry.T))
 				}})
 			}
